@@ -25,7 +25,7 @@ import (
 )
 
 const rule = "cases = (handler behaviour: every final status 200-599 and 101, implicit 200 through Write, no write at all, informational header only, redirect with and without Location) x " +
-	"(resolver configuration: none, succeeding, failing, per-route override succeeding/failing/none) x (handler kind: route, 404, 405, redirect, OPTIONS) x remote address notation; " +
+	"(resolver configuration: none, succeeding, failing, per-route override succeeding/failing/none) x (handler kind: route, 404, 405, redirect, OPTIONS, route reached through an alias that looks it up, route dispatched by hand after Router.Lookup, escaped path) x remote address notation; " +
 	"x capturing handler enabled from DEBUG/INFO/WARN/ERROR; the product is enumerated; distinct by the tuple; non-trivial always; plus a concurrent phase (4 x GOMAXPROCS goroutines, each request encoding its id in path, status, host, client IP and Location: one consistent record per request)"
 
 type rec struct {
